@@ -359,6 +359,57 @@ func c18Secrets(r *engine.Run, k c18WalletKind, ct crypto.CryptoType, pw string,
 			fail("Wallet.Unlock:unlock-changes-locked-wallet", "unlock(same) "+where, "Unlock changed the locked wallet it was called on")
 		}
 	}
+
+	// A life in encrypted mode: wallet kinds that can derive addresses from public material while locked (bip44) do so on the
+	// locked wallet; unlocking must then give exactly the wallet a never-encrypted twin reaches by the same generation calls
+	// (the secrets of entries created while locked are filled in - and re-encrypted - by the unlock path), and the locked
+	// serialisation must not contain any of the twin's secrets.
+	if !mode.heavy {
+		gl, twin := lw.Clone(), orig.Clone()
+		gens := 0
+		for _, opts := range [][]wallet.Option{{wallet.OptionGenerateN(2)}, {wallet.OptionGenerateN(2), wallet.OptionChange()}} {
+			var e1 error
+			if pan, _ := engine.Catch(func() { _, e1 = gl.GenerateAddresses(opts...) }); pan || e1 != nil {
+				continue
+			}
+			if _, e2 := twin.GenerateAddresses(opts...); e2 != nil {
+				fail("Wallet.GenerateAddresses:locked-wallet-generates-what-the-unlocked-cannot", "generate-while-locked", "%v", e2)
+				continue
+			}
+			gens++
+		}
+		if gens > 0 {
+			oc.Add("generate-while-locked")
+			if glSer, err := gl.Serialize(); err == nil {
+				for _, n := range secretNeedles(twin) {
+					for hi, h := range haystacks(glSer) {
+						if bytes.Contains(h, n.Val) {
+							fail("Wallet.Lock:secret-in-serialised-locked-wallet:"+strings.Fields(n.What)[0]+":after-generating-while-locked", "serialize", "the serialised locked wallet contains %s (haystack %d)", n.What, hi)
+						}
+					}
+				}
+				if rl, err := k.Load(glSer); err != nil {
+					fail("Wallet.Load:locked-wallet-rejected:after-generating-while-locked", "load", "%v", err)
+				} else {
+					gl = rl // what a restarted node holds
+				}
+			}
+			uw, err := gl.Unlock([]byte(pw))
+			if err != nil {
+				fail("Wallet.Unlock:rejects-right-password:after-generating-while-locked", "unlock(same)", "%v", err)
+			} else {
+				if got, want := verifState(uw), verifState(twin); got != want {
+					fail("Wallet.Unlock:restored-state-differs:after-generating-while-locked", "unlock(same)", "the unlocked wallet differs from a never-encrypted wallet after the same address generation:\n got %s\nwant %s", got, want)
+				}
+				// and locking it again keeps the round trip
+				if err := uw.Lock([]byte(pw)); err == nil {
+					if uw2, err := uw.Unlock([]byte(pw)); err != nil || verifState(uw2) != verifState(twin) {
+						fail("Wallet.Unlock:restored-state-differs:after-generating-while-locked:second-round", "unlock(same)", "Lock→Unlock of the unlocked wallet: err %v", err)
+					}
+				}
+			}
+		}
+	}
 }
 
 func c18(r *engine.Run) {
